@@ -87,7 +87,9 @@ func validateDecimal64String(s string, fractionDigitsAllowed int) error {
 			return newValidateDecimal64Error(
 				fmt.Sprintf("Error parsing digits: %s", err))
 		}
-		return nil
+		// A value written without a fraction part has all fraction
+		// digits zero and is subject to the same 64-bit bounds.
+		sSplit = append(sSplit, "0")
 	}
 	if len(sSplit) > 2 {
 		return newValidateDecimal64Error(errorStringExcessDecimalPoint)
